@@ -207,9 +207,11 @@ Next ==
   /\ LET r == Rec[l] IN
      /\ CASE r.f = "varint_enc" -> (PROP = "C26" => VarintEnc(r))
           [] r.f = "varint_dec" -> (PROP = "C26" => VarintDec(r))
-          [] r.f = "height" -> (PROP = "C29" => HeightRec(r))
-          [] r.f = "sat" -> /\ (PROP = "C29" => SatRec(r))
-                            /\ (PROP = "C30" => SatBack(r))
+          [] r.f = "height" -> (PROP = "C29" => IF "panic" \in DOMAIN r THEN Chk("C29.total", FALSE, r) ELSE HeightRec(r))
+          [] r.f = "sat" -> IF "panic" \in DOMAIN r
+                            THEN (PROP \in {"C29", "C30"} => Chk("C29.total", FALSE, r))
+                            ELSE /\ (PROP = "C29" => SatRec(r))
+                                 /\ (PROP = "C30" => SatBack(r))
           [] r.f = "rarity_supply" -> (PROP = "C29" => RaritySupplyRec(r))
           [] r.f = "rune" -> (PROP = "C32" => RuneRec(r))
           [] r.f = "runemin" -> (PROP = "C33" => RuneMin(r))
